@@ -76,15 +76,17 @@ def run_case(case):
     model, env, ext, unit = build(case)
     kind = case["env"]["kind"]
     spatial = kind != "plain"
-    masks = (list(case.get("objs", [])) + [0] * 7)[:7]
+    NOBJ = max(1, min(int(case.get("nobj", 7)), 200))           # agent objects (large cases cross size thresholds)
+    NIDS = max(1, min(int(case.get("nids", 4)), 190))           # distinct identifiers among them
+    masks = (list(case.get("objs", [])) + [1] * NOBJ)[:NOBJ]
     objs = []
     for k, mask in enumerate(masks):
-        a = Agent(f"a{k % 4}", model)
+        a = Agent(f"a{k % NIDS}", model)
         for ti, t in enumerate(TYPES):
             if int(mask) >> ti & 1:
                 a.add_component(t(a, model))
         objs.append(a)
-    spare = [Agent(f"a{k}", model) for k in range(4)]      # fresh objects for injected duplicate adds
+    spare = [Agent(f"a{k}", model) for k in range(NIDS)]      # fresh objects for injected duplicate adds
     for s in spare:
         s.add_component(CompA(s, model))
     stranger = Agent("stranger", model)
@@ -132,7 +134,7 @@ def run_case(case):
             "iter_objs": [id(a) for a in env],
             "len": len(env),
             "get_agents": [id(a) for a in env.get_agents()],
-            "lookup": {i: id(env.get_agent(f"a{i}")) if env.get_agent(f"a{i}") is not None else None for i in range(4)},
+            "lookup": {i: id(env.get_agent(f"a{i}")) if env.get_agent(f"a{i}") is not None else None for i in range(NIDS)},
             "lookup_unknown": env.get_agent("zz"),
             "listings": {t.__name__: ([id(c) for c in model.systems[t]] if model.systems[t] is not None else None) for t in TYPES},
             "objects": {n: (sorted(t.__name__ for t in o.components),
@@ -148,7 +150,7 @@ def run_case(case):
             "iter_objs": [id(a) for a in res],
             "len": len(res),
             "get_agents": [id(a) for a in res],
-            "lookup": {i: (id(resident[f"a{i}"]) if f"a{i}" in resident else None) for i in range(4)},
+            "lookup": {i: (id(resident[f"a{i}"]) if f"a{i}" in resident else None) for i in range(NIDS)},
             "lookup_unknown": None,
             "listings": {t.__name__: ([id(a[t]) for a in res if a[t] is not None] or None) for t in TYPES},
             "objects": {n: (sorted([t.__name__ for t in TYPES if o[t] is not None] + (["PositionComponent"] if spatial and id(o) in where else [])),
@@ -164,7 +166,7 @@ def run_case(case):
                           "lookup": "lookup", "lookup_unknown": "lookup", "listings": "component-listing",
                           "objects": "agent-components"}[key]
                 raise Violation(clause, f"{tag}: {key} is {_fmt(got[key])}, expected {_fmt(exp[key])} (residents {list(resident)})")
-        for i in range(4):
+        for i in range(NIDS):
             sid = f"a{i}"
             if sid in resident:
                 if env.get_agent(sid, True) is not resident[sid]:
@@ -195,14 +197,15 @@ def run_case(case):
     def inject_all(tag):
         positive = [ax for ax in range(3) if spatial and ext[ax] > 0]
         inpos, _ = to_pos({"mode": "in", "f": (1, 1, 1)})
-        for sid in list(resident):
+        dup_targets = list(resident) if len(resident) <= 8 else list(resident)[:3] + list(resident)[-3:]
+        for sid in dup_targets:
             other = spare[int(sid[1:])]
             if other is resident[sid]:
                 continue
             must_reject(f"{tag} + injected duplicate add of {sid}", lambda o=other: env.add_agent(o, *inpos), {"dup"})
         must_reject(f"{tag} + injected unknown remove", lambda: env.remove_agent("zz"), {"unknown"})
         must_reject(f"{tag} + injected strict unknown lookup", lambda: env.get_agent("zz", True), {"unknown"})
-        for i in range(4):
+        for i in range(min(NIDS, 6)):
             if f"a{i}" not in resident:
                 must_reject(f"{tag} + injected remove of absent a{i}", lambda s=f"a{i}": env.remove_agent(s), {"unknown"})
                 must_reject(f"{tag} + injected strict lookup of absent a{i}", lambda s=f"a{i}": env.get_agent(s, True), {"unknown"})
@@ -221,7 +224,7 @@ def run_case(case):
         tag = f"after op {k} {op}"
         kind_op = op["op"]
         if kind_op == "add":
-            o = objs[int(op["o"]) % 7]
+            o = objs[int(op["o"]) % NOBJ]
             pos, oob = to_pos(op.get("pos", {}))
             dup = o.id in resident
             if dup or oob:
@@ -238,8 +241,8 @@ def run_case(case):
                 if op.get("pos", {}).get("mode") == "edge":
                     labels.add("boundary-placement")
         elif kind_op == "remove":
-            i = int(op.get("id", 0)) % 5
-            sid = f"a{i}" if i < 4 else "zz"
+            i = int(op.get("id", 0)) % (NIDS + 1)
+            sid = f"a{i}" if i < NIDS else "zz"
             if "k" in op and resident:
                 sid = list(resident)[int(op["k"]) % len(resident)]
             if sid in resident:
@@ -255,8 +258,8 @@ def run_case(case):
                 must_reject(tag, lambda: env.remove_agent(sid), {"unknown"})
                 labels.add("rejected-unknown-remove")
         elif kind_op == "get":
-            i = int(op["id"]) % 5
-            sid = f"a{i}" if i < 4 else "zz"
+            i = int(op["id"]) % (NIDS + 1)
+            sid = f"a{i}" if i < NIDS else "zz"
             if sid in resident:
                 got = env.get_agent(sid, True) if op.get("strict") else env.get_agent(sid)
                 if got is not resident[sid]:
@@ -268,9 +271,11 @@ def run_case(case):
         else:
             raise InvalidCase(op)
         compare(tag)
-        if k < 12:
+        if k < 12 or (NOBJ > 16 and k >= len(case["ops"]) - 6):
             inject_all(tag)
             compare(tag + " (after fault injection)")
+    if NOBJ > 64:
+        labels.add("population>64")
     return {"nontrivial": stats["rejected_with_2"] and stats["middle_removal"], "labels": sorted(labels) + [f"env-{kind}"]}
 
 
@@ -300,5 +305,19 @@ def strategy(tier):
                    st.fixed_dictionaries({"op": st.just("remove"), "id": st.integers(0, 4)}),
                    st.fixed_dictionaries({"op": st.just("remove"), "k": st.integers(0, 3)}),
                    st.fixed_dictionaries({"op": st.just("get"), "id": st.integers(0, 4), "strict": st.booleans()}))
+    from vf.fixtures import near_pow2
+    big_op = wone_of(st.fixed_dictionaries({"op": st.just("remove"), "k": st.integers(0, 300)}),
+                     st.fixed_dictionaries({"op": st.just("remove"), "k": st.sampled_from([-1, -1, 0])}),
+                     st.fixed_dictionaries({"op": st.just("add"), "o": st.integers(0, 300), "pos": st.just({"mode": "in", "f": [1, 2, 3]})}),
+                     st.fixed_dictionaries({"op": st.just("get"), "id": st.integers(0, 300), "strict": st.booleans()}))
+    large = near_pow2(33, 130).flatmap(lambda n: st.fixed_dictionaries({
+        "env": env, "nobj": st.just(n + 4), "nids": st.just(n), "objs": st.just([]),
+        "ops": st.builds(lambda tail: [{"op": "add", "o": i, "pos": {"mode": "in", "f": [i, 2 * i, 3 * i]}} for i in range(n)] + tail,
+                         sized_lists(big_op, 2, 10))}))
+    small = _small(env, op)
+    return wone_of(*([small] * 14 + [large]))
+
+
+def _small(env, op):
     return st.fixed_dictionaries({"env": env, "objs": st.lists(st.integers(0, 7), min_size=7, max_size=7),
                                   "ops": wone_of(sized_lists(op, 1, 30), sized_lists(op, 6, 20))})
